@@ -396,12 +396,32 @@ Fixpoint defs_have_ids (o:obj) : bool :=
 Fixpoint defs_have_ids_l (l:list obj) : bool :=
   match l with [] => true | k :: r => defs_have_ids k && defs_have_ids_l r end.
 
-(* the ids that are present increase strictly (entries 0 = "no id" are skipped) *)
-Definition id_lt (x y:nat) : bool := (x =? 0)%nat || (y =? 0)%nat || (x <? y)%nat.
+(* the ids that are present never decrease (entries 0 = "no id" are skipped).  Not strictly: the
+   implicit prefix scopes scope.adopt makes for a dotted name carry the id of the object they lead
+   to (since /repo 2398dd1), so  a.b = 1  has the pre-order ids [n; n].  This is the order
+   lexical_get's "stop at the first id >= stop_id" relies on. *)
+Definition id_le (x y:nat) : bool := (x =? 0)%nat || (y =? 0)%nat || (x <=? y)%nat.
 Fixpoint ordb (l:list nat) : bool :=
-  match l with [] => true | x :: r => forallb (id_lt x) r && ordb r end.
+  match l with [] => true | x :: r => forallb (id_le x) r && ordb r end.
 
 Definition doc_ordered (t:list obj) : bool := ordb (pre_ids_l t) && defs_have_ids_l t.
+
+(* the pre-order ids without the repetitions: the id of a scope is left out when the id that follows
+   it in pre-order (that of its first child) is the same, i.e. for a dotted-name prefix scope.
+   For parsed documents this list is exactly 1, 2, ..., n (ParserShape.parse_lead_ids). *)
+Fixpoint lead_ids (o:obj) : list nat :=
+  match o with
+  | Def h _ _ => [opid h]
+  | Scp h ks _ =>
+      let r := (fix go (l:list obj) : list nat :=
+                  match l with [] => [] | k :: r => lead_ids k ++ go r end) ks in
+      match r with
+      | x :: _ => if (opid h =? x)%nat then r else opid h :: r
+      | [] => [opid h]
+      end
+  end.
+Fixpoint lead_ids_l (l:list obj) : list nat :=
+  match l with [] => [] | k :: r => lead_ids k ++ lead_ids_l r end.
 
 (* ------------------------------------------------------------------ what a lookup with stop_id <= n can see *)
 (* the objects of one scope that a lookup with this stop_id looks at: everything before the
